@@ -109,3 +109,65 @@ pub fn restored<M: serde::Serialize + serde::de::DeserializeOwned>(m: &M, json: 
         bincode::deserialize(&b).map_err(|e| format!("bincode::deserialize: {}", e))
     }
 }
+
+/// Call sequences every predictor has to survive (drawn for a share of the cases):
+///  * fit → store → restore → predict: the restored copy predicts exactly what the fitted object predicts;
+///  * predict on a reordered batch with repeated rows: the output for a row depends on that row only.
+/// `preds` are the outputs of `run(model, q)` already obtained (one per row of `q`).
+pub fn sequence_checks<T: SNum, M: serde::Serialize + serde::de::DeserializeOwned>(
+    c: &mut runner::Case,
+    name: &str,
+    sg: &str,
+    model: &M,
+    q: &DenseMatrix<T>,
+    preds: &[f64],
+    run: impl Fn(&M, &DenseMatrix<T>) -> Result<Vec<T>, smartcore::error::Failed>,
+) {
+    let same = |a: &[f64], b: &[f64]| a.len() == b.len() && a.iter().zip(b.iter()).all(|(x, y)| x == y || (x.is_nan() && y.is_nan()));
+    if c.rng.bool(0.25) {
+        let json = c.rng.bool(0.5);
+        let fmt = if json { "json-value" } else { "bincode" };
+        c.bucket(&format!("sequence:fit-store-restore-predict/{}", fmt));
+        let back: Option<Result<M, String>> = c.must(&format!("{}.restore", name), || {
+            if json {
+                serde_json::to_value(model).and_then(serde_json::from_value).map_err(|e| format!("serde_json value round trip: {}", e))
+            } else {
+                restored(model, false)
+            }
+        });
+        match back {
+            Some(Ok(m2)) => match c.must(&format!("{}.predict(restored)", name), || run(&m2, q)) {
+                Some(Ok(o2)) => {
+                    let o2 = fv(&o2);
+                    c.check(&format!("{}.restored.predict/{}", name, fmt), same(preds, &o2), sg, || format!("fitted model predicts {:?}, its restored copy {:?}", preds, o2));
+                }
+                Some(Err(e)) => {
+                    c.check(&format!("{}.restored.predict/{}", name, fmt), false, sg, || format!("the restored copy returned Err({})", e));
+                }
+                None => {}
+            },
+            Some(Err(msg)) => {
+                c.check(&format!("{}.restorable/{}", name, fmt), false, sg, || msg.clone());
+            }
+            None => {}
+        }
+    }
+    let (nq, p) = q.shape();
+    if nq >= 1 && preds.len() == nq && c.rng.bool(0.25) {
+        c.bucket("sequence:predict-on-reordered-batch");
+        let mut order: Vec<usize> = (0..nq).rev().collect();
+        order.push(c.rng.below(nq));
+        order.push(c.rng.below(nq));
+        let mut q2 = DenseMatrix::<T>::zeros(order.len(), p);
+        for (i, src) in order.iter().enumerate() {
+            for j in 0..p {
+                q2.set(i, j, q.get(*src, j));
+            }
+        }
+        if let Some(Ok(o2)) = c.must(&format!("{}.predict(reordered batch)", name), || run(model, &q2)) {
+            let o2 = fv(&o2);
+            let ok = o2.len() == order.len() && order.iter().enumerate().all(|(i, src)| same(&preds[*src..*src + 1], &o2[i..i + 1]));
+            c.check(&format!("{}.row-output-independent-of-batch", name), ok, sg, || format!("rows {:?} of the query batch give {:?}; the batch itself gave {:?}", order, o2, preds));
+        }
+    }
+}
